@@ -423,7 +423,19 @@ def cursor_chain(ctx, prog):
     from .c15 import switch_on_call_result
     sw = switch_on_call_result(rm, r"HashMap::<K, V, S, A>::contains_key$")
     ins = [bb for bb, t in rm.calls() if callee_path(t).endswith("HashMap::<K, V, S, A>::insert") and not rm.is_cleanup(bb)]
-    if sw and ins and all(dominates(rm, sw[0][2], i) for i in ins):
-        ctx.ok(rule, rm.id, "a filter's entry is inserted only when it has none yet (oldest unacknowledged forward wins)")
+    ent = [bb for bb, t in rm.calls() if re.search(r"Entry::<'a, K, V(, A)?>::or_insert(_with)?$", callee_path(t)) and not rm.is_cleanup(bb)]
+    # entries without a log cursor (retained replays) must be skipped BEFORE a filter's slot is claimed
+    def is_cursor_elem(srcs):
+        # the third element of an inflight_buffer entry (pkid, filter_idx, cursor)
+        return any("2" in [str(y) for y in (getattr(x, "fields", None) or [])] for x in srcs)
+    somes = [s_ for s_ in discr_switches(rm, r"Option") if variant_target(s_, "Some") is not None and s_[4] and is_cursor_elem(flatten_src(place_provenance(rm, s_[4])))]
+    iss = [i_ for i_ in switch_on_call_result(rm, r"Option::<T>::is_some$") if is_cursor_elem(flatten_src(provenance(rm, rm.blocks[i_[3]]["t"]["args"][0])))]
+    claim = ins + ent
+    cursor_known = bool(claim) and all(any(dominates(rm, variant_target(s_, "Some"), c) for s_ in somes) or any(dominates(rm, i_[1], c) for i_ in iss) for c in claim)
+    first_wins = (sw and ins and all(dominates(rm, sw[0][2], i) for i in ins)) or (ent and not ins)
+    if first_wins and cursor_known:
+        ctx.ok(rule, rm.id, "a filter's entry is claimed only when it has none yet and only by a forward that has a log cursor (oldest unacknowledged log message wins)")
+    elif first_wins:
+        ctx.violation(rule, rm.id, "retained replay claims the filter's slot", "retransmission_map lets an entry without a log cursor (a retained replay) occupy a filter's slot: the unacknowledged log messages behind it are never re-sent after resume", site=rm.fn_loc())
     else:
         ctx.violation(rule, rm.id, "oldest cursor not kept", "retransmission_map no longer keeps the first (oldest) unacknowledged cursor per filter", site=rm.fn_loc())
